@@ -40,10 +40,13 @@ def check_access_rows(chk, it, tabs, rows, configs, rule_rt, rule_ea, rt_check, 
             continue
         if not mr.check_memarg_use(chk, rule_ea, row, mt, site):
             pass
-        for key, t in sorted(mt.variants.items()):
+        per_key = {}
+        for key, t in sorted(mt.all, key=lambda kt: kt[0]):
             text = t.text()
             chk.require(not t.has_unknown_parts(), 'template of %s has unresolved parts: %r' % (nm, text))
-            fname = 'M_%s_p%d_m%d_%s' % (nm.replace('.', '_'), key[0], key[1], key[2].replace('-', '_'))
+            k_ = per_key.get(key, 0)        # an emitter may choose among several runtime functions on the alignment hint: each is checked
+            per_key[key] = k_ + 1
+            fname = 'M_%s_p%d_m%d_%s%s' % (nm.replace('.', '_'), key[0], key[1], key[2].replace('-', '_'), '_%d' % k_ if k_ else '')
             harness.add(fname, text)
             plan.append((row, key, fname, t, text))
             want_after = mr.FILLER + row['results']
